@@ -253,6 +253,17 @@ def render_e4(sname, lname):
             "function main() -> void { Reg a = new Reg(); echo(a.data); echo(mk().data); echo(mkp(7).data); Maker m = new Maker(); echo(m.make().data); }\n" % (sname, sname, sname, lname, lname, lname))
 
 
+def render_e5(lname):
+    """(second hunt, C09/d1) a parameter or local spelled like a method of the class, a free function, or the enclosing function itself, used
+    as an ARGUMENT of a bare call to that method / function: what is called is never a variable"""
+    return ("function helper(int v) -> int { return v * 3; }\n"
+            "class A { public constructor() -> A = default; public function add(int a, int b) -> int { return a + b; }\n"
+            "  public function run(int %s) -> int { int r = add(%s, 2); return r + helper(%s); }\n"
+            "  public function twice() -> int { int %s = 4; return add(%s, %s) + helper(%s); } }\n"
+            "function free(int %s) -> int { return helper(%s) + 1; }\n"
+            "function main() -> void { int add = 5; A a = new A(); echo(a.run(1) + add); echo(a.twice()); echo(free(2)); }\n" % ((lname,) * 9))
+
+
 def e_items(tier):
     items = []
     for k in ((3, 4) if tier != "thorough" else (3, 4, 5)):
@@ -267,6 +278,7 @@ def e_items(tier):
         items.append((("E3", i), [(w, ln) for ln in ("x", "cl", "p", "o", "c2", "m")]))
     for sn in ("N", "size"):
         items.append((("E4", sn), [(sn, ln) for ln in (sn, "data", "qs", "a", "m")]))
+    items.append((("E5",), [(ln,) for ln in ("add", "helper", "run", "twice", "free", "a", "main")]))
     return items
 
 
@@ -279,6 +291,8 @@ def _one_e(item):
         ref_src = render_e3(E3_WRAPS[tag[1]], "u0")
     elif tag[0] == "E4":
         ref_src = render_e4(tag[1], "u0")
+    elif tag[0] == "E5":
+        ref_src = render_e5("u0")
     else:
         ref_src = render_e2("plainS", "plainF", "W")
     r0 = vdrv.run_src(ref_src, gc="own", warn=0)
@@ -286,7 +300,7 @@ def _one_e(item):
         return tag, [("reference", ref_src, "the uniquely named variant did not run: %s %s" % (r0.status(), (r0.rec or {}).get("msg", r0["fd2"][:200])))], 1, None
     want = (r0.rec["status"], r0.rec["stdout"])
     for v in variants:
-        src = render_e1(list(v)) if tag[0] == "E1" else render_e3(*v) if tag[0] == "E3" else render_e4(*v) if tag[0] == "E4" else render_e2(*v)
+        src = render_e1(list(v)) if tag[0] == "E1" else render_e3(*v) if tag[0] == "E3" else render_e4(*v) if tag[0] == "E4" else render_e5(*v) if tag[0] == "E5" else render_e2(*v)
         r = vdrv.run_src(src, gc="own", warn=0)
         n += 1
         if r.crash:
@@ -299,7 +313,7 @@ def _one_e(item):
 
 
 def _one(item):
-    if item[0][0] in ("E1", "E2", "E3", "E4"):
+    if item[0][0] in ("E1", "E2", "E3", "E4", "E5"):
         return _one_e(item)
     if item[0][0] == "D":
         return _one_d((item[0][1:], item[1]))
